@@ -1,4 +1,6 @@
 import NeoFS.Lemmas.NeoFSMain
+import NeoFS.Generated.Consts
+import NeoFS.Generated.Footprint
 /-! # C17 — vote-collected actions fire exactly at 2/3+1 distinct Alphabet votes
 
 Property theorems only. Model: `NeoFS/Model/Vote.lean` (`common.Vote`, `RemoveVotes`, `InnerRingInvoker`) and
@@ -255,5 +257,39 @@ example : step exW (run exW exS (exHist.take 2)) ⟨[[15]], 3⟩ (.setConfig [1]
 /-- one block later than the window the ballot has expired: A2's vote would open a new one -/
 example : (run exW exS (exHist.take 2 ++ [(⟨[[13]], 23⟩, .setConfig [1] [107] (some [118]))])).ballots
     = [⟨[1], [[3]], 23⟩] := by decide
+
+/-! ## Frame of the model, regenerated: who can write ballots, the Alphabet list and the configuration
+
+Checked by kernel evaluation over `NeoFS.Generated.Footprint.table` (grouped by contract: `contracts`), the MAY-WRITE footprint recomputed from the Go sources on
+every run (`extract footprint`; `Model/Footprint.lean`). -/
+section Footprint
+open NeoFS.Footprint NeoFS.Generated.Footprint
+
+def fpBallots : Fam := exactly NeoFS.Generated.common_voteKey_bytes
+def fpAlphabet : Fam := exactly NeoFS.Generated.neofs_alphabetKey_bytes
+def fpConfig : Fam := startingWith NeoFS.Generated.neofs_configPrefix_bytes
+def fpCandidates : Fam := startingWith NeoFS.Generated.neofs_candidatesKey_bytes
+
+/-- In the main-chain NeoFS contract the ballot list is written only by the four vote-collecting methods (and initialised at
+deployment) and nobody deletes it; the stored Alphabet list only by `alphabetUpdate` (and deployment); configuration values only
+by `setConfig` (and deployment); Inner Ring candidates are added only by `innerRingCandidateAdd` and removed only by
+`innerRingCandidateRemove`; each voted action's notification comes from its method only. -/
+theorem voted_state_written_only_by_the_vote_collecting_methods :
+    onlyBy contracts "neofs" "put" fpBallots ["cheque", "alphabetUpdate", "setConfig", "innerRingCandidateRemove", "_deploy"] = true ∧
+    onlyBy contracts "neofs" "delete" fpBallots [] = true ∧
+    onlyBy contracts "neofs" "put" fpAlphabet ["alphabetUpdate", "_deploy"] = true ∧ onlyBy contracts "neofs" "delete" fpAlphabet [] = true ∧
+    onlyBy contracts "neofs" "put" fpConfig ["setConfig", "_deploy"] = true ∧ onlyBy contracts "neofs" "delete" fpConfig [] = true ∧
+    onlyBy contracts "neofs" "put" fpCandidates ["innerRingCandidateAdd"] = true ∧
+    onlyBy contracts "neofs" "delete" fpCandidates ["innerRingCandidateRemove"] = true ∧
+    namedOnlyBy contracts "neofs" "notify" "Cheque" ["cheque"] = true ∧
+    namedOnlyBy contracts "neofs" "notify" "AlphabetUpdate" ["alphabetUpdate"] = true ∧
+    namedOnlyBy contracts "neofs" "notify" "SetConfig" ["setConfig"] = true := by decide +kernel
+
+example : does contracts "neofs" "cheque" "put" fpBallots = true ∧ does contracts "neofs" "alphabetUpdate" "put" fpAlphabet = true ∧
+    does contracts "neofs" "setConfig" "put" fpConfig = true ∧ does contracts "neofs" "innerRingCandidateRemove" "delete" fpCandidates = true ∧
+    named contracts "neofs" "cheque" "notify" "Cheque" = true := by decide +kernel
+example : onlyBy (withRow contracts ⟨"neofs", "bind", "put", "", "", NeoFS.Generated.common_voteKey_bytes, true⟩)
+    "neofs" "put" fpBallots ["cheque", "alphabetUpdate", "setConfig", "innerRingCandidateRemove", "_deploy"] = false := by decide +kernel
+end Footprint
 
 end NeoFS.Props.C17
